@@ -209,7 +209,7 @@ def unit_g12s(ctx):
         else:
             tp = Tape(tape, kind)
             r, priv, pub = S.keypair(tp.addr, 0)
-        ctx.digest(r, priv, pub)
+        ctx.digest(r, priv if r == 0 else b"", pub if r == 0 else b"")
         want = G.enc_pub(P, G.pubkey(P, d))
         det = {"params": S.name, "tape": tape, "ret": errname(r), "privkey": priv, "pubkey": pub,
                "want_priv": d.to_bytes(mo, "little"), "want_pub": want}
@@ -507,7 +507,7 @@ def unit_bign96(ctx):
             r2 = lib.bign96PubkeyVal(params(), pub)
             pub2 = lib.alloc(48)
             r3 = lib.bign96PubkeyCalc(pub2, params(), priv)
-            ctx.digest(r, pv, pb, r1, r2, r3, lib.rd(pub2, 48))
+            ctx.digest(r, pv, pb, r1, r2, r3, lib.rd(pub2, 48) if r3 == 0 else b"")
             if r1 != 0 or r2 != 0:
                 ctx.violation("bign96KeypairGen:invalid-pair:%s" % kind, "generated pair fails bign96KeypairVal/PubkeyVal (%s, %s)" % (errname(r1), errname(r2)), det)
             if pv != blk(d):
@@ -773,7 +773,7 @@ def unit_dstu(ctx):
             r, priv, pub = S.keypair(tp.addr, 0)
         want = D.enc_pt(P, D.pubkey(P, d))
         rv = lib.dstuPointVal(S.params(), lib.mk(pub)) if r == 0 else None
-        ctx.digest(r, priv, pub, rv)
+        ctx.digest(r, priv if r == 0 else b"", pub if r == 0 else b"", rv)
         det = {"params": S.name, "base": ptb, "tape": tape, "ret": errname(r), "privkey": priv, "pubkey": pub,
                "want_priv": d.to_bytes(P.order_no, "little"), "want_pub": want}
         if r != 0:
@@ -804,7 +804,7 @@ def unit_dstu(ctx):
         r2, back = S.recover(xb) if r1 == 0 else (None, b"")
         wantx = D.compress(P, Q)
         r3, back2 = S.recover(wantx)
-        ctx.digest(r1, xb if r1 == 0 else b"", r2, back, r3, back2 if r3 == 0 else b"")
+        ctx.digest(r1, xb if r1 == 0 else b"", r2, back if r2 == 0 else b"", r3, back2 if r3 == 0 else b"")
         det = {"params": S.name, "point": pb, "compress_ret": errname(r1), "xpoint": xb, "want_xpoint": wantx,
                "recover_ret": None if r2 is None else errname(r2), "recovered": back,
                "recover_of_model_xpoint_ret": errname(r3), "recovered_from_model_xpoint": back2}
@@ -1012,7 +1012,7 @@ def unit_pfok(ctx):
             rv = lib.pfokPubkeyVal(params(), pub)
             pub2 = lib.alloc(no)
             rc = lib.pfokPubkeyCalc(pub2, params(), priv)
-            ctx.digest(r, pv, pb, rv, rc, lib.rd(pub2, no))
+            ctx.digest(r, pv, pb, rv, rc, lib.rd(pub2, no) if rc == 0 else b"")
             if pv != enc_x(x):
                 ctx.violation("pfokKeypairGen:value:privkey:%s" % kind, "private key is not the r low bits of the generator output", det)
             elif pb != want:
@@ -1039,7 +1039,7 @@ def unit_pfok(ctx):
             r1, k1 = lib_dh(xa, yb)
             r2, k2 = lib_dh(xb, ya)
             want = PF.dh(P, xa, int.from_bytes(yb, "little"))
-            ctx.digest(r1, k1, r2, k2)
+            ctx.digest(r1, k1 if r1 == 0 else b"", r2, k2 if r2 == 0 else b"")
             det = {"params": name, "xa": xa, "xb": xb, "ya": ya, "yb": yb, "ret_a": errname(r1), "ret_b": errname(r2),
                    "key_a": k1, "key_b": k2, "want": want}
             if r1 != 0 or r2 != 0:
@@ -1055,7 +1055,7 @@ def unit_pfok(ctx):
             r1, k1 = lib_mti(xa, ua, yb, vb)
             r2, k2 = lib_mti(xb, ub, ya, va)
             want = PF.mti(P, xa, ua, int.from_bytes(yb, "little"), int.from_bytes(vb, "little"))
-            ctx.digest(r1, k1, r2, k2)
+            ctx.digest(r1, k1 if r1 == 0 else b"", r2, k2 if r2 == 0 else b"")
             det = {"params": name, "xa": xa, "ua": ua, "xb": xb, "ub": ub, "ret_a": errname(r1), "ret_b": errname(r2),
                    "key_a": k1, "key_b": k2, "want": want}
             if r1 != 0 or r2 != 0:
